@@ -56,12 +56,15 @@ Hr(x) == [t |-> "hour", v |-> x]
 \* the end of an interval (may be spelled as hour 24 of the previous day)
 DE(x) == [t |-> "edate", v |-> x]
 HE(x) == [t |-> "ehour", v |-> x]
+\* older two-dimensional EMISSIONS files carry 0 layers in the grid header
+\* (c.nz0) although every step holds one layer of data
+HdrNz(c) == IF "nz0" \in DOMAIN c /\ c.nz0 THEN 0 ELSE c.nz
 UamivHeader(c) ==
   << A4(c.name, 10) \o A4(c.note, 60) \o
        << I(c.itzon), I(Len(c.spc)), D(BeginOf(c, 1)), Hr(BeginOf(c, 1)),
           DE(EndOf(c, c.nt)), HE(EndOf(c, c.nt)) >>,
      << F(c.plon), F(c.plat), I(c.iutm), F(c.xorg), F(c.yorg), F(c.delx), F(c.dely),
-        I(c.nx), I(c.ny), I(c.nz), I(c.iproj), I(c.istag), F(c.tlat1), F(c.tlat2), F(0) >>,
+        I(c.nx), I(c.ny), I(HdrNz(c)), I(c.iproj), I(c.istag), F(c.tlat1), F(c.tlat2), F(0) >>,
      << I(1), I(1), I(c.nx), I(c.ny) >>,
      [q \in 1..(10 * Len(c.spc)) |-> A4(c.spc[((q - 1) \div 10) + 1], 10)[((q - 1) % 10) + 1]] >>
 
